@@ -72,6 +72,8 @@ def build(kind):
     if kind == "foreign":
         other = Namespace("zz", "http://zz/")
         d.entity(other["thing"], {other["attr"]: other["val"], "ex:f": 1.5, "ex:b": True})
+        # a literal whose datatype lives in a namespace nothing has registered (the one kind of name the model does not register)
+        d.entity("ex:typed", {"ex:shape": Literal("POINT(1 2)", Namespace("geo", "http://geo/")["wkt"])})
     if kind == "bundles":
         b = d.bundle("ex:b1")
         b.add_namespace("ex", "http://clash/")
@@ -82,6 +84,7 @@ def build(kind):
         b2.entity("ex:e1", {"ex:w": 1})
         b2.entity("ex:e1", {"ex:w": 2})
         b2.usage("ex:a1", "ex:e1", T1)
+        b2.entity("ex:typed", {"ex:shape": Literal("POINT(1 2)", Namespace("geo", "http://geo/")["wkt"])})
     return d
 
 
